@@ -1,8 +1,12 @@
 """C13 -- projective / Jacobian formulas equal the affine law on every control path."""
+from .. import grouptrace
 from . import c07
 
 
 def run(ctx):
+    # full size: operations on rescaled projective / Jacobian representatives give the same abstract element
+    grouptrace.run_traces(ctx, [("optimized_bn128", 1), ("optimized_bn128", 2), ("optimized_bls12_381", 1),
+                                ("optimized_bls12_381", 2), "secp"])
     # optimized modules: every representative (incl. common denominators and all representatives
     # of infinity) through add/double/neg/eq/is_on_curve/normalize and the projective line function;
     # the reference line function is validated alongside (same affine oracle).
